@@ -131,6 +131,14 @@ def explore(run, tname, mode):
                 if a != b and isinstance(pa, tuple) and isinstance(pb, tuple):
                     pairs.add((pa, pb))
             if info["stuck"]:
+                # a loaded machine can starve a thread for seconds: repeat the schedule once with generous waits
+                # before calling it a deadlock
+                slow = Scheduler.__new__(Scheduler)
+                slow.__dict__.update(sch.__dict__)
+                slow.grace = 2.0
+                res, trace, info, obj = slow.run(make, {n: call for n in names}, list(sched), names=names)
+                run.count("stuck_schedules_repeated")
+            if info["stuck"]:
                 run.violation(f"C19|{tname}|deadlock", f"{tname}: all threads blocked (schedule {label})", dict(target=tname, schedule=label, trace=[str(x) for x in trace[-8:]]))
                 continue
             bad = {n: r for n, r in res.items() if r != want}
@@ -196,7 +204,7 @@ def stress(run, tname, iters, nthreads):
             for t in ths:
                 t.start()
             for t in ths:
-                t.join(20)
+                t.join(180)
             run.evaluations += 1
             run.count("stress_rounds")
             bad = {k: v for k, v in res.items() if v != want}
